@@ -8,6 +8,7 @@
 #include <string>
 #include <fstream>
 #include <sstream>
+#include <set>
 #include <time.h>
 #include <unistd.h>
 
@@ -80,7 +81,13 @@ static int cmd_worker(int argc, char **argv) {
 		exec::Options opt; opt.run_index = idx; opt.trace = trace;
 		exec::Report rep = exec::execute(plan, opt);
 		double t3 = now_s();
-		bool with_plan = !rep.violations.empty() || done < samples || rep.invalid;
+		// the driver needs a plan per distinct signature, not per violating run: after 24 violating runs of this
+		// worker only new-looking ones carry their plan (a broken build can violate in every run)
+		static int plans_emitted = 0; static std::set<std::string> seen_sigs;
+		bool fresh_sig = false;
+		for (auto &v : rep.violations) if (seen_sigs.insert(v.cls + "|" + v.sig).second) fresh_sig = true;
+		bool with_plan = done < samples || rep.invalid || (!rep.violations.empty() && (fresh_sig || plans_emitted < 24));
+		if (with_plan && !rep.violations.empty()) ++plans_emitted;
 		std::string line = exec::report_to_json(rep, plan, with_plan);
 		char tb[96]; snprintf(tb, sizeof tb, ",\"gen_us\":%ld,\"exec_us\":%ld}", (long)((t2 - t1) * 1e6), (long)((t3 - t2) * 1e6));
 		line.pop_back(); line += tb;
